@@ -14,21 +14,25 @@
      der_of_kind k d        d is exactly one DER value of bytes; kinds 1..6: accepted by kind k's struct, and
                             (k=3) it has exactly two elements, (k=6) its q does not fit a Go int;
                             kind 0 (certificate, structure left to the x509 oracle): starts with 30, contains
-                            a byte that is no base64 character, a byte at offsets 1..7 is no hex digit
+                            a byte that is neither a base64 character nor '.', a byte at offsets 1..7 is no hex digit
                             (for kinds 1..6 these three facts are lemmas: key_shape, key_not_hex7)
      uuid_oracle_ok so      the UUID sniffer (oracle) says yes only if uuid_possible holds: at most 45 bytes
                             that TrimSpace cannot remove, and after a leading ASCII non-space byte other
                             than u/U come seven hex digits (necessary condition read off uuid.Parse)
+     jwt_oracle_ok so       the JWT sniffer (oracle) says yes only if jwt_possible holds: exactly three
+                            '.'-separated segments, each accepted by DecodeAnyBase64 (necessary condition read
+                            off ParseJWT; C18's model is_jwt satisfies it: C05_jwt_model_possible)
      cert_oracle_ok L k d   x509 accepts d iff k = 0
      reserved_in table n    the base name of n is one of the table's name patterns *)
 From WI Require Import Lib.Base Lib.Info Lib.Strings Model.Base64 Model.Dispatch Model.Render Model.Pem Model.Routes.
 From WI Require Import Proofs.Routes.
-From WI Require Proofs.Pem.
+From WI Require Proofs.Pem Model.Jwt.
 Open Scope N_scope.
 
 (* T1: what the routes need from the format table, re-proved on the table regenerated from the
    running code: name patterns are exact names; no magic starts with '0' or 'M'; the first rows with
-   a sniffer are IsUUID, IsBase64ASN1/Base64ASN1File, IsASN1/ASN1File (base64 BEFORE binary: C05-F1);
+   a sniffer are IsUUID, IsJWT (C18's F37), IsBase64ASN1/Base64ASN1File, IsASN1/ASN1File (base64 BEFORE
+   binary: C05-F1);
    the PEMFile signature row is preceded only by signature rows that cannot match a PEM block
    with one of the seven labels; every other sniffer row is one of IsUUID/IsJWT/IsASN1/IsBase64ASN1
    or leads to PEMFile *)
@@ -122,13 +126,28 @@ Theorem C05_der_not_uuid : forall k d, der_of_kind k d = true -> uuid_possible d
 Proof. exact der_not_uuid. Qed.
 Print Assumptions C05_der_not_uuid.
 
+(* ... nor for a JWT (the JWT row precedes the ASN.1 rows since the repair of C18's F37) *)
+Theorem C05_b64_text_not_jwt : forall e w crlf trail d, bytes_ok d = true ->
+  jwt_possible (b64_text e w crlf trail d) = false.
+Proof. exact b64_text_not_jwt. Qed.
+Print Assumptions C05_b64_text_not_jwt.
+
+Theorem C05_der_not_jwt : forall k d, der_of_kind k d = true -> jwt_possible d = false.
+Proof. exact der_not_jwt. Qed.
+Print Assumptions C05_der_not_jwt.
+
+(* the necessary condition holds of C18's model of IsJWT, for every behaviour of encoding/json *)
+Theorem C05_jwt_model_possible : forall J s, Model.Jwt.is_jwt J s = true -> jwt_possible s = true.
+Proof. exact is_jwt_possible. Qed.
+Print Assumptions C05_jwt_model_possible.
+
 (* BASE64 = DER through the dispatcher, under any two non-reserved names, for objects of at
-   least 34 bytes (every key of 256 bits or more).  The UUID sniffer is an oracle assumed to
-   satisfy the necessary condition [uuid_oracle_ok]. *)
+   least 34 bytes (every key of 256 bits or more).  The UUID and JWT sniffers are oracles assumed
+   to satisfy the necessary conditions [uuid_oracle_ok] and [jwt_oracle_ok]. *)
 Theorem C05_b64_eq_der : forall L pem_blocks sniff_other parse_other n1 n2 k d e w crlf trail, (k <= 6)%nat ->
   der_of_kind k d = true -> cert_oracle_ok L k d = true -> (34 <= length d)%nat ->
   reserved_in table n1 = false -> reserved_in table n2 = false ->
-  uuid_oracle_ok sniff_other ->
+  uuid_oracle_ok sniff_other -> jwt_oracle_ok sniff_other ->
   inspect_file L pem_blocks sniff_other parse_other n1 (b64_text e w crlf trail d)
   = inspect_file L pem_blocks sniff_other parse_other n2 d.
 Proof. exact b64_eq_der. Qed.
@@ -137,7 +156,7 @@ Print Assumptions C05_b64_eq_der.
 (* ... and that common description is the one of the kind's parser *)
 Theorem C05_der_described_by_kind : forall L pem_blocks sniff_other parse_other n k d, (k <= 6)%nat ->
   der_of_kind k d = true -> cert_oracle_ok L k d = true ->
-  reserved_in table n = false -> uuid_oracle_ok sniff_other ->
+  reserved_in table n = false -> uuid_oracle_ok sniff_other -> jwt_oracle_ok sniff_other ->
   forall i, parse_kind L k d = Ok i -> i_desc i <> i_desc unknown_asn1 ->
   inspect_file L pem_blocks sniff_other parse_other n d = Ok i.
 Proof. exact der_described_by_kind. Qed.
